@@ -3,6 +3,7 @@ package main
 import (
 	"fmt"
 	"go/token"
+	"go/types"
 	"strings"
 
 	"golang.org/x/tools/go/ssa"
@@ -162,9 +163,81 @@ func ruleFragmentPop(c *Ctx, r *Report) {
 			return (isLoad(bo.X, "handshakeLength") && isLenRaw(bo.Y)) || (isLoad(bo.Y, "handshakeLength") && isLenRaw(bo.X))
 		}},
 	}
+	// the body may be put together by a helper of the package that Pop calls: the obligations on
+	// how it is put together then hold in that helper, whose failure must make Pop return nil
+	hasAssembly := func(g *ssa.Function) bool {
+		for _, app := range findCalls(g, nameIs("builtin:append")) {
+			if len(app.Call.Args) == 2 {
+				if sl, ok := app.Call.Args[1].(*ssa.Slice); ok {
+					if _, f, _, ok := fieldLoad(sl.X); ok && f == "data" {
+						return true
+					}
+				}
+			}
+		}
+		return false
+	}
+	asm, asmCall := fn, (*ssa.Call)(nil)
+	if !hasAssembly(fn) {
+		for _, b := range fn.Blocks {
+			for _, in := range b.Instrs {
+				if cl, ok := in.(*ssa.Call); ok {
+					if g := cl.Call.StaticCallee(); g != nil && g.Pkg == fn.Pkg && len(g.Blocks) > 0 && hasAssembly(g) {
+						asm, asmCall = g, cl
+					}
+				}
+			}
+		}
+	}
+	boolIdx := -1
+	if asm != fn {
+		r.Sites += len(asm.Blocks)
+		res := asm.Signature.Results()
+		for i := 0; i < res.Len(); i++ {
+			if bt, ok := res.At(i).Type().Underlying().(*types.Basic); ok && bt.Kind() == types.Bool {
+				boolIdx = i
+			}
+		}
+	}
+	var asmSucc []*ssa.Return
+	for _, b := range asm.Blocks {
+		if ret, ok := b.Instrs[len(b.Instrs)-1].(*ssa.Return); ok && len(ret.Results) > 0 && !isNilConst(unspill(ret.Results[0])) {
+			asmSucc = append(asmSucc, ret)
+		}
+	}
+	// delivers: the exploration ends in a return of the assembler that hands a body back (and, when
+	// the assembler reports completeness as a flag, does not report false)
+	delivers := func(w *Walk) bool {
+		for _, ro := range w.Returns {
+			if len(ro.Ret.Results) == 0 || isNilConst(unspill(ro.Ret.Results[0])) {
+				continue
+			}
+			if boolIdx >= 0 && boolIdx < len(ro.Vals) && ro.Vals[boolIdx] == vBool(false) {
+				continue
+			}
+			return true
+		}
+		return false
+	}
+	if asmCall != nil {
+		var failed atomAssume
+		if boolIdx >= 0 {
+			failed = atomAssume{mValue(resultValue(asmCall, boolIdx)), vBool(false)}
+		} else {
+			failed = atomAssume{mValue(resultValue(asmCall, 0)), vNil(true)}
+		}
+		w := (&Walk{Fn: fn, Assume: assumeAll(failed)}).After(asmCall)
+		reach := false
+		for _, s := range succ {
+			if w.Reached[s] || !mustPass(asmCall, s) {
+				reach = true
+			}
+		}
+		r.Check(!reach, rule, short(fn)+":assembler-failure-is-nil", c.ipos(asmCall), "Pop returns nil when "+asm.Name()+" reports an incomplete message", "Pop can return a message although "+asm.Name()+" reported that the fragments do not make up the message")
+	}
 	for _, g := range guards {
 		var cmp *ssa.BinOp
-		for _, b := range fn.Blocks {
+		for _, b := range asm.Blocks {
 			for _, in := range b.Instrs {
 				if bo, ok := in.(*ssa.BinOp); ok && (bo.Op == token.NEQ || bo.Op == token.EQL) && g.match(bo) {
 					cmp = bo
@@ -176,21 +249,15 @@ func ruleFragmentPop(c *Ctx, r *Report) {
 			continue
 		}
 		unequal := cmp.Op == token.NEQ
-		w := (&Walk{Fn: fn, Assume: assumeAll(atomAssume{mValue(cmp), vBool(unequal)})}).FromEntry()
-		reach := false
-		for _, s := range succ {
-			if w.Reached[s] {
-				reach = true
-			}
-		}
-		r.Check(!reach && instrDominatesAny(cmp, succ), rule, short(fn)+":"+g.name, c.ipos(cmp), "a message is returned only when "+g.name, "Pop can return a message although the test '"+g.name+"' fails")
+		w := (&Walk{Fn: asm, Assume: assumeAll(atomAssume{mValue(cmp), vBool(unequal)})}).FromEntry()
+		r.Check(!delivers(w) && instrDominatesAny(cmp, asmSucc), rule, short(fn)+":"+g.name, c.ipos(cmp), "a message is returned only when "+g.name, "Pop can return a message although the test '"+g.name+"' fails")
 	}
 	// the body is assembled from offset 0 upwards without a gap. Two forms are recognised: a chain of
 	// presence-tested lookups by the running offset (fragments that abut exactly), and a coverage
 	// walk that, at every position, takes a stored fragment that starts at or before the position
 	// and reaches beyond it (overlapping ranges, RFC 6347 4.2.3)
 	var chainOK ssa.Value
-	for _, b := range fn.Blocks {
+	for _, b := range asm.Blocks {
 		for _, in := range b.Instrs {
 			if lk, ok := in.(*ssa.Lookup); ok && lk.CommaOk && isFieldLoad(lk.X, tFr, "fragmentByOffset") {
 				if _, isConst := lk.Index.(*ssa.Const); isConst {
@@ -205,16 +272,10 @@ func ruleFragmentPop(c *Ctx, r *Report) {
 		}
 	}
 	if chainOK != nil {
-		w := (&Walk{Fn: fn, Assume: assumeAll(atomAssume{mValue(chainOK), vBool(false)})}).After(chainOK.(ssa.Instruction))
-		reach := false
-		for _, s := range succ {
-			if w.Reached[s] {
-				reach = true
-			}
-		}
-		r.Check(!reach, rule, short(fn)+":offset-chain", c.ipos(chainOK.(ssa.Instruction)), "a gap in the offset chain yields nil", "a gap in the offset chain does not stop Pop from returning a message")
+		w := (&Walk{Fn: asm, Assume: assumeAll(atomAssume{mValue(chainOK), vBool(false)})}).After(chainOK.(ssa.Instruction))
+		r.Check(!delivers(w), rule, short(fn)+":offset-chain", c.ipos(chainOK.(ssa.Instruction)), "a gap in the offset chain yields nil", "a gap in the offset chain does not stop Pop from returning a message")
 	} else {
-		c.coverageWalk(r, rule, fn, succ)
+		c.coverageWalk(r, rule, short(fn), asm, delivers)
 	}
 	// a fragment set whose lengths add up to more than the message (overlapping ranges, a longer
 	// fragment that replaced a shorter one) can still be surfaced: with every comparison of the
@@ -222,7 +283,7 @@ func ruleFragmentPop(c *Ctx, r *Report) {
 	{
 		isTot := func(v ssa.Value) bool { return isLoad(v, "fragmentsLength") }
 		isLen := func(v ssa.Value) bool { return isLoad(v, "handshakeLength") }
-		w := (&Walk{Fn: fn, Assume: func(v ssa.Value) (Val, bool) {
+		w := (&Walk{Fn: fn, Follow: followSamePkg(fn), Assume: func(v ssa.Value) (Val, bool) {
 			bo, ok := v.(*ssa.BinOp)
 			if !ok {
 				return unknown, false
@@ -637,8 +698,8 @@ func (c *Ctx) cacheDeletes(fn *ssa.Function) []cacheDelete {
 // fragment.data[position-offset:] where position is the current length of the body, the fragment
 // taken is assigned only under (offset <= position) and (offset + length > position), and a
 // position no stored fragment covers yields nil.
-func (c *Ctx) coverageWalk(r *Report, rule string, fn *ssa.Function, succ []*ssa.Return) {
-	key := short(fn) + ":coverage"
+func (c *Ctx) coverageWalk(r *Report, rule string, keyFn string, fn *ssa.Function, delivers func(w *Walk) bool) {
+	key := keyFn + ":coverage"
 	var isLenOfBody func(v ssa.Value, body ssa.Value) bool
 	isLenOfBody = func(v ssa.Value, body ssa.Value) bool {
 		v = stripConv(v)
@@ -707,16 +768,66 @@ func (c *Ctx) coverageWalk(r *Report, rule string, fn *ssa.Function, succ []*ssa
 			continue
 		}
 		// the chosen fragment: assigned only under offset <= position and offset+length > position
-		phi, isPhi := chosen.(*ssa.Phi)
-		if !isPhi {
+		isPosHere := func(v ssa.Value) bool {
+			v = stripConv(v)
+			if isLenOfBody(v, body) {
+				return true
+			}
+			for _, l := range c.Origins(v, 0) {
+				if isLenOfBody(l, body) {
+					return true
+				}
+			}
+			return false
+		}
+		sel := ""
+		switch ch := chosen.(type) {
+		case *ssa.Phi:
+			sel = c.selectionGuards(fn, ch, isPosHere)
+		case *ssa.Call:
+			// selected by a helper of the package that is handed the position
+			g := ch.Call.StaticCallee()
+			pi := -1
+			for i, a := range ch.Call.Args {
+				if isPosHere(a) {
+					pi = i
+				}
+			}
+			var selPhi *ssa.Phi
+			if g != nil && g.Pkg == fn.Pkg && len(g.Blocks) > 0 && pi >= 0 && pi < len(g.Params) {
+				for _, b := range g.Blocks {
+					if ret, ok := b.Instrs[len(b.Instrs)-1].(*ssa.Return); ok && len(ret.Results) == 1 {
+						if p, ok := rootValueDeep(unspill(ret.Results[0])).(*ssa.Phi); ok {
+							selPhi = p
+						}
+					}
+				}
+			}
+			if selPhi == nil {
+				r.Unk(rule, key+":selection", c.ipos(app), "the fragment taken comes from a call that is not a selection over the stored fragments by position")
+				continue
+			}
+			par := g.Params[pi]
+			sel = c.selectionGuards(g, selPhi, func(v ssa.Value) bool {
+				v = stripConv(v)
+				if v == ssa.Value(par) {
+					return true
+				}
+				for _, l := range c.Origins(v, 0) {
+					if stripConv(l) == ssa.Value(par) {
+						return true
+					}
+				}
+				return false
+			})
+		default:
 			r.Unk(rule, key+":selection", c.ipos(app), "the fragment taken is not selected in a loop over the stored fragments")
 			continue
 		}
-		sel := c.selectionGuards(fn, phi, body, isLenOfBody)
 		r.Check(sel == "", rule, key+":selection", c.ipos(app), "a fragment is taken only if it starts at or before the position and reaches beyond it", "the fragment appended at a position "+sel+": the body is assembled with a gap or does not advance")
 		// nothing covers the position: nil
 		var nilTest *ssa.BinOp
-		for _, ref := range *phi.Referrers() {
+		for _, ref := range *chosen.Referrers() {
 			if bo, ok := ref.(*ssa.BinOp); ok && (bo.Op == token.EQL || bo.Op == token.NEQ) && (isNilConst(bo.X) || isNilConst(bo.Y)) {
 				nilTest = bo
 			}
@@ -726,16 +837,10 @@ func (c *Ctx) coverageWalk(r *Report, rule string, fn *ssa.Function, succ []*ssa
 			continue
 		}
 		w := (&Walk{Fn: fn, Assume: assumeAll(atomAssume{mValue(nilTest), vBool(nilTest.Op == token.EQL)})}).After(nilTest)
-		reach := false
-		for _, s := range succ {
-			if w.Reached[s] {
-				reach = true
-			}
-		}
-		r.Check(!reach, rule, key+":gap", c.ipos(nilTest), "a position that no stored fragment covers yields nil", "a position that no stored fragment covers does not stop Pop from returning a message")
+		r.Check(!delivers(w), rule, key+":gap", c.ipos(nilTest), "a position that no stored fragment covers yields nil", "a position that no stored fragment covers does not stop Pop from returning a message")
 	}
 	if n == 0 {
-		r.Bad(rule, short(fn)+":offset-chain", c.pos(fn.Pos()), "Pop neither walks the fragments by offset nor assembles the body from fragment data by position: the rule cannot recognise how the message is put together")
+		r.Bad(rule, keyFn+":offset-chain", c.pos(fn.Pos()), "Pop neither walks the fragments by offset nor assembles the body from fragment data by position: the rule cannot recognise how the message is put together")
 	}
 }
 
@@ -798,7 +903,7 @@ func sameAccumulator(a, b ssa.Value) bool {
 // path on which it ends at or before it: with every comparison of the candidate's offset (or offset
 // + length) against the position answering that way, none of those edges is taken. Returns a
 // description of what is missing, or "".
-func (c *Ctx) selectionGuards(fn *ssa.Function, sel *ssa.Phi, body ssa.Value, isLenOfBody func(ssa.Value, ssa.Value) bool) string {
+func (c *Ctx) selectionGuards(fn *ssa.Function, sel *ssa.Phi, isPos func(ssa.Value) bool) string {
 	phis := map[*ssa.Phi]bool{}
 	var collect func(p *ssa.Phi, d int)
 	collect = func(p *ssa.Phi, d int) {
@@ -813,18 +918,6 @@ func (c *Ctx) selectionGuards(fn *ssa.Function, sel *ssa.Phi, body ssa.Value, is
 		}
 	}
 	collect(sel, 0)
-	isPos := func(v ssa.Value) bool {
-		v = stripConv(v)
-		if isLenOfBody(v, body) {
-			return true
-		}
-		for _, l := range c.Origins(v, 0) {
-			if isLenOfBody(l, body) {
-				return true
-			}
-		}
-		return false
-	}
 	type assign struct {
 		edge [2]*ssa.BasicBlock
 		cand ssa.Value
